@@ -7,7 +7,7 @@ from __future__ import annotations
 import ast
 
 from ..core import Run, AnalysisError, dotted, norm
-from ..alg import T, num, var, op, fun, normalize, same, same_terms, substitute
+from ..alg import T, num, var, op, fun, app, normalize, same, same_terms, substitute
 from ..pyreader import PyReader, VVal, Sys, Raised
 from .c12 import H
 from ..reader import SYSTEMS
@@ -34,10 +34,22 @@ MODS = ["symplyphysics.core.vectors.arithmetics", "symplyphysics.core.geometry.e
 
 
 class Field:
-    """opaque vector field: apply(...) yields the generic value A; curl/div yield markers"""
+    """opaque vector field F: apply(point) yields the generic values F_i(point); curl/div yield fields / expressions that are
+    again generic functions of the point"""
 
     def __init__(self, system: Sys, value: list, tag: str = "F"):
         self.system, self.value, self.tag = system, value, tag
+
+    def at(self, point: list) -> list:
+        p = list(point) + [num(0)] * (3 - len(point))
+        return [app(f"{self.tag}{i}", *p[:3]) for i in range(3)]
+
+
+class ScalarFieldObj:
+    """a scalar field given by an expression in the base scalars of its system (ScalarField.from_expression)"""
+
+    def __init__(self, system: Sys, expr):
+        self.system, self.expr = system, expr
 
 
 class AnalysisReader(PyReader):
@@ -54,8 +66,21 @@ class AnalysisReader(PyReader):
             if n.func.attr == "apply":
                 base = self.ev(base_node, env, fns)
                 if isinstance(base, Field):
-                    self.ev(n.args[0], env, fns)
-                    return VVal(list(base.value), base.system)
+                    pt = self.ev(n.args[0], env, fns)
+                    if not isinstance(pt, list):
+                        self.fail(n, "field applied to something that is not a list of coordinates")
+                    return VVal(base.at([self.scalar(x, n) for x in pt]), base.system)
+                if isinstance(base, ScalarFieldObj):
+                    # ScalarField.apply -> __call__ -> _subs_with_point: every base scalar replaced at once by the coordinate, 0 when missing (C11-T7/T8)
+                    pt = self.ev(n.args[0], env, fns)
+                    if not isinstance(pt, list):
+                        self.fail(n, "field applied to something that is not a list of coordinates")
+                    p = [self.scalar(x, n) for x in pt] + [num(0)] * (3 - len(pt))
+                    return substitute(self.scalar(base.expr, n), {nm: p[k] for k, nm in enumerate(SYSTEMS[base.system.kind])})
+            if f in ("ScalarField.from_expression", ) and len(n.args) == 2:
+                e, cs = self.ev(n.args[0], env, fns), self.ev(n.args[1], env, fns)
+                if isinstance(cs, Sys):
+                    return ScalarFieldObj(cs, e)
             if n.func.attr == "to_sympy_vector" and not n.args:
                 v = self.ev(base_node, env, fns)
                 if isinstance(v, VVal):
@@ -77,11 +102,12 @@ class AnalysisReader(PyReader):
         if name == "curl_operator" and len(n.args) == 1:
             fld = self.ev(n.args[0], env, fns)
             if isinstance(fld, Field):
-                return Field(fld.system, [var(f"curl{fld.tag}{i}") for i in range(3)], tag="curl" + fld.tag)
+                return Field(fld.system, [], tag="curl" + fld.tag)
         if name == "divergence_operator" and len(n.args) == 1:
             fld = self.ev(n.args[0], env, fns)
             if isinstance(fld, Field):
-                return var(f"div{fld.tag}")
+                # an expression in the base scalars of the field's system
+                return app(f"div{fld.tag}", *[var(x) for x in SYSTEMS[fld.system.kind]])
         if name == "integrate" and len(n.args) >= 2:
             integrand = self.ev(n.args[0], env, fns)
             limits = []
@@ -116,7 +142,7 @@ def check(run: Run) -> None:
         ("J2", "surface flux integrand = A . (r_u x r_v); each parameter integrated over its own limits"),
         ("J3", "circulation over a surface = surface flux of curl_operator(field) over the same surface and limits"),
         ("J4", "planar flux integrand (A . n_hat) |dr/dt| = A_x y' - A_y x'"),
-        ("J5", "planar divergence integrand = div F |r_u x r_v|"),
+        ("J5", "planar divergence integrand = (div F)(r(u, v)) |r_u x r_v|: the divergence taken at the points of the region"),
         ("J6", "volume integrand = div F * h1 h2 h3, integrated over z, y, x each with its own limits"),
         ("J7", "no assumption-forcing simplification (posify, force=True) on the way to an integrand"),
     ]:
@@ -162,8 +188,9 @@ def check(run: Run) -> None:
         if ok:
             integrand, limits = R.integrals[0]
             want = num(0)
+            At = Field(cart, A).at(r)
             for i in range(ncomp):
-                want = op("add", want, op("mul", A[i], op("diff", r[i], t)))
+                want = op("add", want, op("mul", At[i], op("diff", r[i], t)))
             ok = same_terms(integrand, want) and limits == [(t, a, b)]
         if not ok:
             run.violate("J1", f"{AN}:circulation_along_curve:{ncomp}", mod, mod.tree,
@@ -180,8 +207,9 @@ def check(run: Run) -> None:
     if ok:
         integrand, limits = R.integrals[0]
         want = num(0)
+        As = Field(cart, A).at(rs)
         for i in range(3):
-            want = op("add", want, op("mul", A[i], cross[i]))
+            want = op("add", want, op("mul", As[i], cross[i]))
         ok = same_terms(integrand, want) and sorted(map(repr, limits)) == sorted(map(repr, [(u, a, b), (v, c, d)]))
     if not ok:
         run.violate("J2", f"{AN}:flux_across_surface", mod, mod.tree, "flux_across_surface does not integrate A . (r_u x r_v) with each parameter over its own limits")
@@ -193,8 +221,9 @@ def check(run: Run) -> None:
     if ok:
         integrand, limits = R.integrals[0]
         want = num(0)
+        Cs = Field(cart, [], tag="curlF").at(rs)
         for i in range(3):
-            want = op("add", want, op("mul", var(f"curlF{i}"), cross[i]))
+            want = op("add", want, op("mul", Cs[i], cross[i]))
         ok = same_terms(integrand, want) and sorted(map(repr, limits)) == sorted(map(repr, [(u, a, b), (v, c, d)]))
     if not ok:
         run.violate("J3", f"{AN}:circulation_along_surface_boundary", mod, mod.tree, "circulation over a surface is not the flux of curl_operator(field) across that surface with the same limits")
@@ -206,7 +235,8 @@ def check(run: Run) -> None:
     ok = not isinstance(res, Raised) and len(R.integrals) == 1
     if ok:
         integrand, limits = R.integrals[0]
-        want = op("sub", op("mul", A[0], op("diff", r2[1], t)), op("mul", A[1], op("diff", r2[0], t)))
+        A2 = Field(cart, A).at(r2)
+        want = op("sub", op("mul", A2[0], op("diff", r2[1], t)), op("mul", A2[1], op("diff", r2[0], t)))
         ok = same_terms(integrand, want) and limits == [(t, a, b)]
     if not ok:
         run.violate("J4", f"{AN}:flux_across_curve", mod, mod.tree, "flux_across_curve does not integrate A_x y' - A_y x' (outward flux across a counter-clockwise planar curve) over (t, a, b)")
@@ -225,10 +255,13 @@ def check(run: Run) -> None:
         mag2 = num(0)
         for x in cross:
             mag2 = op("add", mag2, op("mul", x, x))
-        want = op("mul", var("divF"), op("sqrt", mag2))
+        # the divergence is a function of position: it has to be taken AT the points r(u, v) of the region
+        want = op("mul", app("divF", *rs), op("sqrt", mag2))
         ok = same_terms(op("mul", integrand, integrand), op("mul", want, want)) and sorted(map(repr, limits)) == sorted(map(repr, [(u, a, b), (v, c, d)]))
     if not ok:
-        run.violate("J5", f"{AN}:flux_across_surface_boundary", mod, mod.tree, "flux_across_surface_boundary does not integrate div F |r_u x r_v| with each parameter over its own limits")
+        run.violate("J5", f"{AN}:flux_across_surface_boundary", mod, mod.tree, "flux_across_surface_boundary does not integrate (div F)(r(u, v)) |r_u x r_v| with each parameter over its own limits"
+                    + (f": the integrand is {normalize(R.integrals[0][0])!r} - where the divergence is left as a function of the base scalars instead of being evaluated at the points "
+                       f"of the region, the result still contains coordinate variables unless the divergence is constant" if not isinstance(res, Raised) and len(R.integrals) == 1 else ""))
     # ---- J6
     for kind, coords in SYSTEMS.items():
         R = fresh()
@@ -240,7 +273,7 @@ def check(run: Run) -> None:
         if ok:
             integrand, limits = R.integrals[0]
             hs, _ = H[kind]
-            want = op("mul", var("divF"), op("mul", op("mul", hs[0], hs[1]), hs[2]))
+            want = op("mul", app("divF", *[var(x) for x in coords]), op("mul", op("mul", hs[0], hs[1]), hs[2]))
             q = [var(x) for x in coords]
             expect = [(q[2], lims[2][0], lims[2][1]), (q[1], lims[1][0], lims[1][1]), (q[0], lims[0][0], lims[0][1])]
             ok = same_terms(integrand, want) and sorted(map(repr, limits)) == sorted(map(repr, expect))
